@@ -515,6 +515,12 @@ def tie_cases(cx, cases):
     if rel == 'different' or (rel == 'coarser' and not float32):
       c.tie_break('%s: order type' % op, case, dense_ranks(rv), m['ord'])
       continue
+    if op == 'zscore' and len(set(fin)) == 1:
+      # a constant array has std 0 in the field; in floats `sum/n` may miss the constant by one
+      # ulp, so numpy's std is 0 or ~1e-25 depending on the summation order and the output is
+      # the input or an array of equal ±1/0 values: ill-conditioned, only the order type (all
+      # equal, compared above) is meaningful
+      continue
     if float32 and not m['short']:
       if all(v == v for v in mv):
         mv = real.gauss_g(mv)
